@@ -199,12 +199,12 @@ func cmdProp(args []string) {
 				hashFile(srcHash, *repo, f)
 				for _, c := range cs {
 					if c.Tags != "any" {
-						isPure := strings.Contains(tags, "purego")
+						isPure := strings.Contains(tags, "purego") || strings.Contains(tags, "portable")
 						if c.Tags == "purego" && !isPure || c.Tags == "default" && isPure {
 							continue
 						}
 					}
-					v.contracts[rel+"."+c.Func] = c
+					v.contracts[contractKey(rel, c)] = c
 					groupOf[c] = g
 				}
 			}
@@ -377,6 +377,7 @@ func cmdProp(args []string) {
 			"samples":                  samples,
 			"source_sha256":            srcHash,
 			"explanation":              plan.Note,
+			"ring_interpretations_used": sortedKeys(usedRing),
 		},
 		"assumptions": as,
 		"wall_s":      round3(time.Since(t0).Seconds()),
